@@ -14,6 +14,9 @@
      add_boxed(s)    AddRead(s)     L.read: if last_data is Some, service.publish(last_data)
                      AddPush(s)     S.write (needs no reader): services.push(s)
      clear()         Clear(c)       S.write: services.clear()
+     set_addr_filter SetFilter(x)   F.write: addr_filter := Some(relay_only)
+   With set_addr_filter callers (Setters # {}) the filter read of publish is a step of its own,
+   PubFilter(d) (F.read), before PubBegin(d); it is outside the one lock of the required design.
 
    `Serialized = TRUE` is the design the property needs: one lock around each whole
    operation (PubBegin..PubStore, AddRead..AddPush), as in proposed_fixes/C30.diff.
@@ -28,6 +31,7 @@ EXTENDS Naturals, Sequences, FiniteSets, TLC, Json
 CONSTANTS Pubs,        \* data published, one publisher thread each, e.g. {"d1", "d2"}
           NewSvcs,     \* services added concurrently, one adder thread each, e.g. {"n1"}
           Clears,      \* clear() callers, e.g. {} or {"c1"}
+          Setters,     \* set_addr_filter callers, e.g. {} or {"f1"}
           NInit,       \* number of services registered before anything starts (0..3)
           FilterOn,    \* an addr_filter is installed (publish hands on the filtered datum)
           Serialized
@@ -36,15 +40,17 @@ VARIABLES services,   \* Seq of service ids (the Vec behind S)
           lastData,   \* the Option behind L: [some, d, f]
           got,        \* per service: Seq of data received
           pubpc, pubIdx, pubData,
-          addpc, clrpc,
+          addpc, clrpc, setpc,
+          filter,     \* an addr_filter is installed
           order,      \* ghost: data in the order of their PubStore
           big,        \* Serialized only: holder of the one lock ("none" if free)
           word        \* history of steps: Seq of [a |-> actor, step |-> name]
-vars == <<services, lastData, got, pubpc, pubIdx, pubData, addpc, clrpc, order, big, word>>
+vars == <<services, lastData, got, pubpc, pubIdx, pubData, addpc, clrpc, setpc, filter, order, big, word>>
 
 InitSvcs == SubSeq(<<"s0", "s1", "s2">>, 1, NInit)
 AllSvcs == { InitSvcs[i] : i \in 1..Len(InitSvcs) } \cup NewSvcs
-Datum(d) == [d |-> d, f |-> FilterOn]             \* Filter(d): what services are given
+Datum(d) == [d |-> d, f |-> FilterOn]             \* Filter(d) under the initial filter
+Datums == { [d |-> d, f |-> f] : d \in Pubs, f \in IF Setters = {} THEN {FilterOn} ELSE BOOLEAN }
 NoData == [some |-> FALSE, d |-> "none", f |-> FALSE]
 Some(x) == [some |-> TRUE, d |-> x.d, f |-> x.f]
 Step(a, s) == word' = Append(word, [a |-> a, step |-> s])
@@ -53,6 +59,7 @@ Init == /\ services = InitSvcs /\ lastData = NoData /\ got = [s \in AllSvcs |-> 
         /\ pubpc = [d \in Pubs |-> "start"] /\ pubIdx = [d \in Pubs |-> 1]
         /\ pubData = [d \in Pubs |-> [d |-> d, f |-> FALSE]]
         /\ addpc = [s \in NewSvcs |-> "start"] /\ clrpc = [c \in Clears |-> "start"]
+        /\ setpc = [x \in Setters |-> "start"] /\ filter = FilterOn
         /\ order = <<>> /\ big = "none" /\ word = <<>>
 
 \* the one lock of the required design
@@ -63,33 +70,42 @@ Leave == big' = IF Serialized THEN "none" ELSE big
 \* S: readers are the publishers between PubBegin and PubStore
 NoReader == \A d \in Pubs : pubpc[d] # "giving"
 
-PubBegin(d) == /\ pubpc[d] = "start" /\ CanEnter(d) /\ Enter(d)
-               /\ pubData' = [pubData EXCEPT ![d] = Datum(d)]
+\* F.read as a step of its own (only when somebody may change the filter concurrently)
+PubFilter(d) == /\ Setters # {} /\ pubpc[d] = "start"
+                /\ pubData' = [pubData EXCEPT ![d] = [d |-> d, f |-> filter]]
+                /\ pubpc' = [pubpc EXCEPT ![d] = "filtered"]
+                /\ UNCHANGED <<services, lastData, got, pubIdx, addpc, clrpc, setpc, filter, order, big>> /\ Step(d, "PubFilter")
+
+PubBegin(d) == /\ pubpc[d] = (IF Setters = {} THEN "start" ELSE "filtered") /\ CanEnter(d) /\ Enter(d)
+               /\ pubData' = [pubData EXCEPT ![d] = IF Setters = {} THEN [d |-> d, f |-> filter] ELSE @]
                /\ pubpc' = [pubpc EXCEPT ![d] = "giving"] /\ pubIdx' = [pubIdx EXCEPT ![d] = 1]
-               /\ UNCHANGED <<services, lastData, got, addpc, clrpc, order>> /\ Step(d, "PubBegin")
+               /\ UNCHANGED <<services, lastData, got, addpc, clrpc, setpc, filter, order>> /\ Step(d, "PubBegin")
 
 PubGive(d) == /\ pubpc[d] = "giving" /\ pubIdx[d] <= Len(services)
               /\ got' = [got EXCEPT ![services[pubIdx[d]]] = Append(@, pubData[d])]
               /\ pubIdx' = [pubIdx EXCEPT ![d] = @ + 1]
-              /\ UNCHANGED <<services, lastData, pubpc, pubData, addpc, clrpc, order, big>> /\ Step(d, "PubGive")
+              /\ UNCHANGED <<services, lastData, pubpc, pubData, addpc, clrpc, setpc, filter, order, big>> /\ Step(d, "PubGive")
 
 PubStore(d) == /\ pubpc[d] = "giving" /\ pubIdx[d] > Len(services)
                /\ lastData' = Some(pubData[d]) /\ order' = Append(order, pubData[d])
                /\ pubpc' = [pubpc EXCEPT ![d] = "done"] /\ Leave
-               /\ UNCHANGED <<services, got, pubIdx, pubData, addpc, clrpc>> /\ Step(d, "PubStore")
+               /\ UNCHANGED <<services, got, pubIdx, pubData, addpc, clrpc, setpc, filter>> /\ Step(d, "PubStore")
 
 AddRead(s) == /\ addpc[s] = "start" /\ CanEnter(s) /\ Enter(s)
               /\ got' = IF lastData.some THEN [got EXCEPT ![s] = Append(@, [d |-> lastData.d, f |-> lastData.f])] ELSE got
               /\ addpc' = [addpc EXCEPT ![s] = "read"]
-              /\ UNCHANGED <<services, lastData, pubpc, pubIdx, pubData, clrpc, order>> /\ Step(s, "AddRead")
+              /\ UNCHANGED <<services, lastData, pubpc, pubIdx, pubData, clrpc, setpc, filter, order>> /\ Step(s, "AddRead")
 
 AddPush(s) == /\ addpc[s] = "read" /\ Holds(s) /\ NoReader
               /\ services' = Append(services, s) /\ addpc' = [addpc EXCEPT ![s] = "done"] /\ Leave
-              /\ UNCHANGED <<lastData, got, pubpc, pubIdx, pubData, clrpc, order>> /\ Step(s, "AddPush")
+              /\ UNCHANGED <<lastData, got, pubpc, pubIdx, pubData, clrpc, setpc, filter, order>> /\ Step(s, "AddPush")
 
 Clear(c) == /\ clrpc[c] = "start" /\ CanEnter(c) /\ NoReader
             /\ services' = <<>> /\ clrpc' = [clrpc EXCEPT ![c] = "done"]
-            /\ UNCHANGED <<lastData, got, pubpc, pubIdx, pubData, addpc, order, big>> /\ Step(c, "Clear")
+            /\ UNCHANGED <<lastData, got, pubpc, pubIdx, pubData, addpc, setpc, filter, order, big>> /\ Step(c, "Clear")
+
+SetFilter(x) == /\ setpc[x] = "start" /\ filter' = TRUE /\ setpc' = [setpc EXCEPT ![x] = "done"]
+                /\ UNCHANGED <<services, lastData, got, pubpc, pubIdx, pubData, addpc, clrpc, order, big>> /\ Step(x, "SetFilter")
 
 Next == \/ (\E d \in Pubs : PubBegin(d)) \/ (\E d \in Pubs : PubGive(d)) \/ (\E d \in Pubs : PubStore(d))
         \/ (\E s \in NewSvcs : AddRead(s)) \/ (\E s \in NewSvcs : AddPush(s))
@@ -99,11 +115,17 @@ NextC == \/ (\E d \in Pubs : PubBegin(d)) \/ (\E d \in Pubs : PubGive(d)) \/ (\E
          \/ (\E s \in NewSvcs : AddRead(s)) \/ (\E s \in NewSvcs : AddPush(s))
          \/ (\E c \in Clears : Clear(c))
 SpecC == Init /\ [][NextC]_vars
+\* with set_addr_filter callers
+NextF == \/ (\E d \in Pubs : PubFilter(d)) \/ (\E d \in Pubs : PubBegin(d)) \/ (\E d \in Pubs : PubGive(d))
+         \/ (\E d \in Pubs : PubStore(d))
+         \/ (\E s \in NewSvcs : AddRead(s)) \/ (\E s \in NewSvcs : AddPush(s))
+         \/ (\E x \in Setters : SetFilter(x))
+SpecF == Init /\ [][NextF]_vars
 
 ---------------------------------------------------------------------------
 (* C30 *)
 Quiescent == (\A d \in Pubs : pubpc[d] = "done") /\ (\A s \in NewSvcs : addpc[s] = "done")
-             /\ (\A c \in Clears : clrpc[c] = "done")
+             /\ (\A c \in Clears : clrpc[c] = "done") /\ (\A x \in Setters : setpc[x] = "done")
 LastOf(q) == q[Len(q)]
 \* the property on any (model or observed) quiescent state: every registered service has most
 \* recently been given `latest`
@@ -112,12 +134,12 @@ AllHaveLatest == (Quiescent /\ order # <<>>) => HaveLatest(services, got, LastOf
 \* what a service added later would be given is the latest published datum, too
 LastDataIsLatest == order # <<>> => (lastData.some /\ [d |-> lastData.d, f |-> lastData.f] = LastOf(order))
 \* services are only ever given (filtered) published data
-OnlyPublished == \A s \in AllSvcs : \A i \in 1..Len(got[s]) : got[s][i] \in { Datum(d) : d \in Pubs }
+OnlyPublished == \A s \in AllSvcs : \A i \in 1..Len(got[s]) : got[s][i] \in Datums
 \* lock discipline of S
 PushOnlyWithoutReader == [][services' # services => NoReader]_vars
 
 \* exhaustive checking identifies states that differ only in the history
-View == <<services, lastData, got, pubpc, pubIdx, pubData, addpc, clrpc, order, big>>
+View == <<services, lastData, got, pubpc, pubIdx, pubData, addpc, clrpc, setpc, filter, order, big>>
 
 \* one REPLAY line per complete word with the model's final state and the verdict of the property on it
 Emit == Quiescent =>
